@@ -8,6 +8,7 @@ GenNext == \E c \in C :
     \/ Poll(c) /\ h' = Append(h, [ev |-> "Poll", c |-> c])
     \/ Release(c) /\ h' = Append(h, [ev |-> "Release", c |-> c])
     \/ Disconnect(c) /\ h' = Append(h, [ev |-> "Disconnect", c |-> c])
+    \/ Reopen(c) /\ h' = Append(h, [ev |-> "Reopen", c |-> c])
 GenSpec == GenInit /\ [][GenNext]_gvars
 View == vars
 Emit == PrintT(<<"SCHED", ToJson([h |-> h'])>>)
